@@ -23,6 +23,8 @@ import (
 	"sync/atomic"
 	"time"
 
+	"github.com/go-openapi/swag"
+
 	"verif/rig/core"
 	"verif/rig/histgen"
 	"verif/rig/jx"
@@ -1002,7 +1004,7 @@ func (e *exec) genStep(i int, s histgen.Step) bool {
 	// (d) the configure file of application <name> is configure_<name>.go
 	if name, given := s.AppName(); given && r.Exit == 0 && (s.Cmd == "server" || s.Cmd == "support") &&
 		!s.HasOpt("implementation-package") && !s.HasOpt("skip-support") {
-		want := "configure_" + name + ".go"
+		want := "configure_" + swag.ToFileName(name) + ".go"
 		found := false
 		var saw []string
 		for p := range ev.all {
@@ -1199,7 +1201,7 @@ func reproScript(h histgen.History, res result, key string) string {
 		// self-contained script: the configuration file of the config-file options
 		out = strings.ReplaceAll(out, histgen.LayoutDir, "$W/layouts")
 		mark := "> go.mod\n"
-		out = strings.Replace(out, mark, mark+"mkdir -p \"$W/layouts\"; cat > \"$W/layouts/server-layout.yml\" <<'VF_LAYOUT_EOF'\n"+histgen.ServerLayout+"VF_LAYOUT_EOF\n", 1)
+		out = strings.Replace(out, mark, mark+"mkdir -p \"$W/layouts\"; cat > \"$W/layouts/server-layout.yml\" <<'VF_LAYOUT_EOF'\n"+histgen.ServerLayout+"VF_LAYOUT_EOF\ncat > \"$W/layouts/server-layout-doc.yml\" <<'VF_LAYOUT_EOF'\n"+histgen.ServerLayoutDoc+"VF_LAYOUT_EOF\n", 1)
 	}
 	return out
 }
